@@ -70,8 +70,13 @@ def gen_thr_input(rng, i, boundary_heavy=False):
         ep = en = c * n
     sc, ec = rng.choice(gen.CFGS)
     metric = rng.choice(gen.METRICS)
+    intdt = False
+    if rng.random() < 0.2:
+        # integer-dtype score arrays (the object then holds int arrays)
+        pos, neg = [float(round(x)) for x in pos], [float(round(x)) for x in neg]
+        intdt = True
     inp = {"stream": stream, "pos": pos, "neg": neg, "ep": ep, "en": en, "sc": sc, "ec": ec,
-           "metric": metric, "alias": rng.random() < 0.3, "scalar": rng.random() < 0.3}
+           "metric": metric, "alias": rng.random() < 0.3, "scalar": rng.random() < 0.3, "intdt": intdt}
     n_rel = {"tpr": len(pos), "fnr": len(pos), "tnr": len(neg), "fpr": len(neg)}.get(metric, len(pos) + len(neg))
     n_all = {"tpr": len(pos) + ep, "fnr": len(pos) + ep, "tnr": len(neg) + en, "fpr": len(neg) + en}.get(
         metric, len(pos) + len(neg) + ep + en)
@@ -91,8 +96,12 @@ def build_thr(pid: str, inp, clauses) -> Case:
     rs = [float(common.unjson_num(x)) for x in inp["rs"]]
     inp["rs"] = rs
     pos, neg = inp["pos"], inp["neg"]
-    s = Scores(pos, neg, nb_easy_pos=inp["ep"], nb_easy_neg=inp["en"], score_class=inp["sc"],
-               equal_class=inp["ec"])
+    if inp.get("intdt"):
+        s = Scores(np.array(pos, dtype=int), np.array(neg, dtype=int), nb_easy_pos=inp["ep"],
+                   nb_easy_neg=inp["en"], score_class=inp["sc"], equal_class=inp["ec"])
+    else:
+        s = Scores(pos, neg, nb_easy_pos=inp["ep"], nb_easy_neg=inp["en"], score_class=inp["sc"],
+                   equal_class=inp["ec"])
     metric = inp["metric"]
     name = "threshold_at_" + (gen.ALIASES[metric] if inp["alias"] else metric)
     fn = getattr(s, name)
@@ -141,6 +150,8 @@ def build_thr(pid: str, inp, clauses) -> Case:
             "exact-arith" if ex else "float-arith"]
     if inp["ep"] or inp["en"]:
         tags.append("easy")
+    if inp.get("intdt"):
+        tags.append("int-dtype")
     if len(set(pos)) < len(pos) or len(set(neg)) < len(neg) or set(pos) & set(neg):
         tags.append("ties")
     if any(r <= 0 or r >= 1 for r in rs):
